@@ -111,7 +111,9 @@ impl Ctx {
     let _ = std::fs::create_dir_all(format!("{}/replays", VERIF_DIR));
     let _ = std::fs::create_dir_all(format!("{}/evidence", VERIF_DIR));
     let mut viol_json = vec![];
-    for v in &unlisted {
+    // many clause/class combinations of one defect: the first dozen are written out, the rest only counted
+    let more = unlisted.len().saturating_sub(12);
+    for v in unlisted.iter().take(12) {
       let mut art = v.artefact.clone();
       if let Value::Object(m) = &mut art {
         m.insert("property".into(), json!(v.property));
@@ -125,6 +127,7 @@ impl Ctx {
       println!("  clause={} instances={} :: {}", v.clause, v.count, truncate(&v.description, 600));
       viol_json.push(json!({"clause": v.clause, "instances": v.count, "replay": path, "description": truncate(&v.description, 400)}));
     }
+    if more > 0 { println!("  ... and {} more failing clause/class combinations of property {} (not written out)", more, self.id); }
     let mut known_json = vec![];
     for (i, c) in &matched {
       println!("KNOWN-FINDING: property={} {} [signature={} instances={}]", known[*i].property, known[*i].what, known[*i].signature, c);
